@@ -586,3 +586,28 @@ def diagram_copy_independent(ctx):
             if not np.array_equal(np.asarray(c.calculate().array), before):
                 bad.append((kind, "original+edge"))
     ctx.ensure("copy-is-independent-of-the-original", not bad, bad=str(bad[:4]))
+    # both diagrams GROW after the copy, each by a different new node (node tables must not be shared): compare with diagrams built from scratch
+    C3 = gb.Tensor(np.arange(27).reshape(3, 3, 3) - 7, covariant=[0, 1])
+    bad2 = []
+    for first in ("copy", "original"):
+        for (e_copy, e_orig) in (((B, C3), (B, v)), ((B, v), (B, C3)), ((w, A), (B, C3)), ((B, C3), (w, A))):
+            try:
+                d = gb.TensorDiagram((A, B))
+                c = d.copy()
+                if first == "copy":
+                    c.add_edge(*e_copy)
+                    d.add_edge(*e_orig)
+                else:
+                    d.add_edge(*e_orig)
+                    c.add_edge(*e_copy)
+                r_c, r_d = c.calculate(), d.calculate()
+                ref_c, ref_d = gb.TensorDiagram((A, B), e_copy).calculate(), gb.TensorDiagram((A, B), e_orig).calculate()
+                ok = np.array_equal(np.asarray(r_c.array), np.asarray(ref_c.array)) and np.array_equal(np.asarray(r_d.array), np.asarray(ref_d.array)) \
+                    and r_c.tensor_shape == ref_c.tensor_shape and r_d.tensor_shape == ref_d.tensor_shape
+            except Exception as e:
+                ok = False
+                bad2.append((first, type(e).__name__))
+                continue
+            if not ok:
+                bad2.append((first, "values"))
+    ctx.ensure("copy-and-original-grow-independently(new-nodes-on-both-sides)", not bad2, bad=str(bad2[:4]))
